@@ -20,6 +20,7 @@ EXPLANATION = (
     "C04.7 the two comparisons reuse hinges on: tmalloc_large passes over a fitting tree chunk only under dvsize >= size, and release_unused_segments unmaps under chunk_top >= top. "
     "C04.9 a chunk put into a bin has been stamped free (size|PINUSE, foot) on every path, and sys_trim sweeps for releasable segments whatever the top released. "
     "C04.8 the catch-all tree bin (every size above compute_tree_index's bound) is walked with shift 0 in leftshift_for_tree_index, so the bits that order its tree are kept. "
+    "C04.10 top spans its segment: init_top gets (new mapping - foot) for a fresh mapping and topsize +/- exactly the change when the segment holding top grows or shrinks in place. "
     "NOT decided: the bound itself (a quantitative statement about fragmentation over arbitrary histories) and VmSize behaviour.")
 ASSUMPTIONS = ["dlmalloc's bin/tree invariants (not established here)"]
 
@@ -160,6 +161,56 @@ def run_one(ck, prog):
         return
     ctx = prog.ctx(fr)
     cfg = ctx.cfg
+    # ---- C04.10 top reaches to the end of its segment less the foot: a fresh mapping gives top = mapping - foot; when the segment that holds
+    # top grows or shrinks in place, top changes by exactly that amount (the foot was already set aside - subtracting it again strands
+    # that many bytes at every growth, and they are never handed out or given back)
+    n_top = 0
+    foot_v = None
+    tf = prog.fns.get(DL + "top_foot_size")
+    for p10, f10 in prog.fns.items():
+        if not p10.startswith(DL):
+            continue
+        c10 = prog.ctx(f10)
+        for bb, t in c10.cfg.calls(lambda t: (t.get("callee") or "") == DL + "init_top"):
+            a = c10.args(bb)
+            if len(a) < 3:
+                continue
+            n_top += 1
+            atoms = {}
+
+            def lin(e, sign):
+                e = strip_casts(e)
+                v = fold(e)
+                if v is not None:
+                    atoms["#"] = atoms.get("#", 0) + sign * v
+                    return
+                if isinstance(e, tuple) and e and e[0] == "field" and isinstance(e[1], tuple) and e[1][0] == "bin" and str(e[1][1]).endswith("WithOverflow"):
+                    e = e[1]
+                if isinstance(e, tuple) and e and e[0] == "bin" and e[1] in ("Add", "Sub", "AddWithOverflow", "SubWithOverflow"):
+                    lin(e[2], sign)
+                    lin(e[3], sign if e[1].startswith("Add") else -sign)
+                    return
+                if isinstance(e, tuple) and e and e[0] == "call" and (e[1] or "").endswith("top_foot_size"):
+                    k = "foot"
+                elif isinstance(e, tuple) and e and e[0] in ("field", "deref") and mentions(e, c10.prov, lambda z: z[0] == "field" and z[2] == "topsize") and not mentions(e, c10.prov, lambda z: z[0] == "call"):
+                    k = "topsize"
+                else:
+                    k = canon(e)
+                atoms[k] = atoms.get(k, 0) + sign
+            lin(a[2], 1)
+            atoms = {k: v for k, v in atoms.items() if v != 0}
+            in_place = mentions(a[1], c10.prov, lambda z: z[0] == "field" and z[2] == "top") and not mentions(a[1], c10.prov, lambda z: z[0] == "call")
+            others = {k: v for k, v in atoms.items() if k not in ("topsize", "foot", "#")}
+            if in_place:
+                ok = atoms.get("topsize") == 1 and "foot" not in atoms and "#" not in atoms and len(others) == 1 and set(others.values()) <= {1, -1}
+                want = "topsize +/- the amount the segment changed by"
+            else:
+                ok = atoms.get("foot") == -1 and "topsize" not in atoms and "#" not in atoms and len(others) == 1 and set(others.values()) == {1}
+                want = "the size of the new mapping - top_foot_size()"
+            ck.ob("C04.10", f"{p10.split('::')[-1]}|top-spans-its-segment|{'in-place' if in_place else 'new-mapping'}", ok, fn=p10, site=c10.site(bb),
+                  detail=f"init_top is given {show(a[2])[:120]}; must be {want}")
+    ck.floor("C04.10", "init_top call sites", n_top, 4)
+
     # ---- C04.8 the catch-all tree bin keeps every size bit ---------------------------------------------------------------------------------
     # compute_tree_index sends every size above a bound to one last bin; the sizes in it differ in bits up to the top one, so the
     # per-bin left shift the tree walks (tmalloc_large, insert_large_chunk) use must be 0 for it - any other shift discards
